@@ -110,7 +110,7 @@ def rule2(ctx, rep):
     rep.analysed(disp, put)
     with rep.rule(
         'R-C03-2',
-        'one message per released (job, target); do drained and job dropped from the batch after queuing; one worker pop per message pop',
+        'one message per released (job, target); do drained and job dropped from the batch after queuing; the batch shrinks nowhere else',
         floor=3,
         breaks='a released unit is queued twice (do not cleared) or handed to two workers / lost (unpaired pops)',
     ) as r:
@@ -196,32 +196,8 @@ def rule2(ctx, rep):
                     'batch entries leave _jobs only per job after their messages exist, or in farm.clear()',
                     f'{g.qname}: {norm(site)[:80]} takes jobs out of the batch outside the per-job hand-over: their targets stay in `doing` and are never offered again',
                 )
-        # worker assignment: _workers.pop and _cluster.pop in the same call, loop bound min(len, len)
-        assigns = []
-        for c in disp.calls():
-            if isinstance(c.func, ast.Attribute) and c.func.attr == 'do':
-                inner = [x for x in ast.walk(c) if isinstance(x, ast.Call) and isinstance(x.func, ast.Attribute) and x.func.attr == 'pop']
-                srcs = sorted(shared.resolve_container(prog, disp, x.func.value) or '?' for x in inner)
-                if 'dawgie.pl.farm._workers' in srcs:
-                    assigns.append((c, srcs))
-        if not assigns:
-            raise AnalysisError('farm.dispatch: worker assignment (_workers.pop(...).do(...)) not found')
-        for c, srcs in assigns:
-            r.instance()
-            r.check(
-                srcs == ['dawgie.pl.farm._cluster', 'dawgie.pl.farm._workers'],
-                f'{disp.qname}:{norm(c)}',
-                where(disp, c),
-                'one worker popped together with one message',
-                f'{norm(c)}: the worker and the message are not both popped in this assignment (pops from {srcs})',
-            )
-            # enclosing loop bound
-            encl = [l for l in disp.own_nodes() if isinstance(l, ast.For) and any(x is c for x in ast.walk(l))]
-            okb = False
-            for l in encl:
-                t = norm(l.iter).replace(' ', '')
-                okb = okb or t in ('range(min(len(_cluster),len(_workers)))', 'range(min(len(_workers),len(_cluster)))')
-            r.check(okb, f'{disp.qname}:assignment-bound', where(disp, c), 'loop bound min(len(_cluster), len(_workers))', 'assignment loop is not bounded by min(len(_cluster), len(_workers)): a pop from an empty list raises and drops the popped counterpart')
+        # the pairing of one idle worker with one message (and the bound of that loop) is decided by the hand-over model
+        # of C11 (R-C11-2 / R-C11-4, borrowed in check()): it recognises the pairing however the loop is written
 
 
 def rule3(ctx, rep):
@@ -584,6 +560,17 @@ def check(ctx):
     rule4(ctx, rep)
     rule5(ctx, rep)
     rule6(ctx, rep)
+    def _c11(m):
+        model = m.Model(ctx)
+        m._rule1(model, rep)
+        m._rule2(model, rep)
+        m._rule4(model, rep)
+        m._rule5(model, rep)
+    shared.borrow(ctx, rep, [
+        ('c01', lambda m: m.rule2(ctx, rep), 'the task messages made for a job are the targets just released (do), not those already executing'),
+        ('c11', _c11, 'a task written to a worker that is gone or stale is a released unit that no one answers'),
+        ('c02', lambda m: m._update_rules(ctx, rep, 6), 'the new-value report of a result is propagated by update()/organize(): every reported target must be queued'),
+    ])
     return rep
 
 
@@ -598,8 +585,8 @@ VARIANTS = [
     V('job not dropped from batch', 'B', 'pl/farm.py', 'dispatch', '_jobs.remove(j)', 'pass', 'R-C03-2'),
     V('batch cleared in the except handler', 'B', 'pl/farm.py', 'dispatch', 'log.exception("Error processing from next_job_batch()")', 'log.exception("Error processing from next_job_batch()")\n        _jobs.clear()', 'R-C03-2'),
     V('_put appends twice', 'B', 'pl/farm.py', '_put', ').append(msg)', ').append(msg)\n    _cluster.append(msg)', 'R-C03-2'),
-    V('worker not popped', 'B', 'pl/farm.py', 'dispatch', '_workers.pop(0).do(_cluster.pop(0))', '_workers[0].do(_cluster.pop(0))', 'R-C03-2'),
-    V('loop bound len(_cluster)', 'B', 'pl/farm.py', 'dispatch', 'range(min(len(_cluster), len(_workers)))', 'range(len(_cluster))', 'R-C03-2'),
+    V('worker not popped', 'B', 'pl/farm.py', 'dispatch', '_workers.pop(0).do(_cluster.pop(0))', '_workers[0].do(_cluster.pop(0))', 'R-C11-2'),
+    V('loop bound len(_cluster)', 'B', 'pl/farm.py', 'dispatch', 'range(min(len(_cluster), len(_workers)))', 'range(len(_cluster))', 'R-C11-4'),
     V('purge and update both called', 'B', 'pl/farm.py', 'Hand._res', 'else:\n                dawgie.pl.schedule.purge(job, inc)', 'dawgie.pl.schedule.purge(job, inc)', 'R-C03-3'),
     V('complete called twice', 'B', 'pl/farm.py', 'Hand._res', 'dawgie.pl.schedule.complete(job, msg.runid, inc, msg.timing, state)', 'dawgie.pl.schedule.complete(job, msg.runid, inc, msg.timing, state)\n            dawgie.pl.schedule.complete(job, msg.runid, inc, msg.timing, state)', 'R-C03-3'),
     V('update before complete', 'B', 'pl/farm.py', 'Hand._res', 'dawgie.pl.schedule.complete(job, msg.runid, inc, msg.timing, state)\n', 'pass\n', 'R-C03-3'),
